@@ -337,7 +337,21 @@ def r8(run, db):
             bad = []
             for a in aw:
                 for b in try_branches_on(f, a.poll):
-                    if b["break_edge"] and any(x in edge_path_sites(f, [b["break_edge"]]) for x in f.exits()):
+                    if not b["break_edge"]:
+                        continue
+                    # propagated = on the failure edge the handler builds its own error result from the stop's error:
+                    # `?` (from_residual) or an explicit `Err(e) => return Err(..e..)`; merely looking at the error (logging
+                    # it, `if let Err(e) = .. {}`) and carrying on is what is wanted
+                    reach = edge_path_sites(f, [b["break_edge"]])
+                    thr_e = lambda cc: 0 if cc.matches(r"convert::Into<U>>::into$|convert::From<T>>::from$|Box::<T>::new$|ToString|to_string$") else None
+                    prop = False
+                    for x in f.calls():
+                        if x.site in reach and x.matches(r"FromResidual(>)?::from_residual$") and any(r["k"] == "call" and r["call"].bb in (a.poll.bb, b["call"].bb if b.get("call") else -1) for r in f.origins(x.args[0], through=THROUGH_TRY)):
+                            prop = True
+                    for site_, st_ in f.aggregates(adt="std::result::Result", variant="Err"):
+                        if site_ in reach and any(r["k"] == "call" and r["call"].bb == a.poll.bb for o_ in st_["rv"]["ops"] for r in f.origins(o_, through=thr_e)):
+                            prop = True
+                    if prop:
                         bad.append(b)
             run.check(not bad, "proxy-stop-error-not-propagated:%s" % f.id.split("::")[-2], "a failure to stop a proxy is not propagated out of the session handler",
                       "%s propagates (`?`) the result of stopping a remote-actor proxy: a proxy that has already exited (its own ActorTerminated is what is being handled) or was stopped by the application makes the NodeSession itself fail, which kills every other remote reference and the connection" % f.id.split("::")[-2], c.where())
